@@ -146,7 +146,7 @@ func TestC15_BlockedWrite(t *testing.T) {
 				for _, nr := range []bool{false, true} {
 					c := blockedCase{Op: op, Others: others, NoRetrans: nr}
 					var err error
-					if perr := pbt.Safely(func() { err = runBlocked(c) }); perr != nil {
+					if perr := pbt.Safely(func() { err = guardDeadlock(120*time.Second, "blocked-write scenario", func() error { return runBlocked(c) }) }); perr != nil {
 						err = perr
 					}
 					rec.Case("blocked-write", evid.NewH().Str(fmt.Sprint(c)).Sum(), true, func() any { return c })
